@@ -95,9 +95,13 @@ class Ctx:
         self.modules_used.update(modules)
 
     def floor(self, rule, what, count, minimum):
+        """instance floor: a rule that finds fewer instances than were confirmed by hand would pass vacuously.  The failure is
+        recorded; the run ends as ANALYSIS-ERROR unless some rule has reported a (new) finding, which is a verdict of its own."""
         if count < minimum:
-            raise AnalysisError(f'{rule}: {what}: {count} instances found, hand-confirmed floor is {minimum} '
-                                f'(rule would pass vacuously)')
+            if not hasattr(self, 'floor_failures'):
+                self.floor_failures = []
+            self.floor_failures.append(f'{rule}: {what}: {count} instances found, hand-confirmed floor is {minimum} '
+                                       f'(rule would pass vacuously)')
 
     def finding(self, rule, key, ci, node, message, construct=None, where=None, extra=None, module=None):
         """report a violated rule instance.  ci = ClassInfo (or None with module=), node = ast node for position"""
